@@ -131,6 +131,31 @@ def replay_cppgen_case(case):
         if not case['valid']:
             return [('invalid description accepted', 'CppGenError', 'object')]
         decl, dfn = tokenize(obj.as_decl), tokenize(obj.as_def)
+        # rendering is a function of the description as it is NOW: change a field after rendering, render, change it back
+        try:
+            import dataclasses  # pylint: disable=import-outside-toplevel
+            fields = [f.name for f in dataclasses.fields(obj)] if dataclasses.is_dataclass(obj) else []
+            probe = next((f for f in ('name', 'contents', 'initialization') if f in fields), None)
+            if probe is not None:
+                original = getattr(obj, probe)
+                changed = 'renamed' if probe == 'name' else None
+                setattr(obj, probe, changed)
+                try:
+                    _ = (obj.as_decl, obj.as_def)
+                except Exception:  # pylint: disable=broad-except
+                    pass                       # the intermediate description need not be valid
+                setattr(obj, probe, original)
+                again = (tokenize(obj.as_decl), tokenize(obj.as_def))
+                if again != (decl, dfn):
+                    bad.append((f'rendering after {probe} was changed and restored', (text_of(decl), text_of(dfn)),
+                                (text_of(again[0]), text_of(again[1]))))
+                twin = __import__('copy').copy(obj)
+                if probe == 'name':
+                    twin.name = 'twin'
+                    if tokenize(obj.as_decl) != decl or 'twin' not in twin.as_decl:
+                        bad.append(('a copy of a rendered description renders its own fields', 'twin', twin.as_decl))
+        except (AttributeError, TypeError):
+            pass                               # frozen description: nothing to probe
         if decl != case['decl']:
             bad.append(('declaration', text_of(case['decl']), text_of(decl)))
         if dfn != case['def']:
